@@ -44,6 +44,7 @@ var (
 
 func init() {
 	fileSets["one"] = []fileSpec{{"a.bin", gitx.Content("bin", 1500, 1)}}
+	fileSets["two"] = []fileSpec{{"a.bin", gitx.Content("bin", 1500, 1)}, {"dir/b.bin", gitx.Content("bin", 5000, 2)}}
 	fileSets["three"] = []fileSpec{
 		{"a.bin", gitx.Content("bin", 1500, 1)},
 		{"dir/b.bin", gitx.Content("bin", 70000, 2)},
@@ -211,6 +212,7 @@ type execSpec struct {
 	LockPaths  []string
 	LockIDs    []string
 	NeedCreds  bool
+	Rewrite    *rewriteSpec // client URL rewriting configuration (git configuration and oracle facts are both derived from it)
 	// hash-algo clause
 	ExpectFailStep int // index of the step that must fail when the server named an unsupported hash algorithm (-1: none)
 }
@@ -275,6 +277,11 @@ func runSpec(sp *execSpec) vx.Result {
 		srv.Server.Unlock()
 	}
 	gitcfg := strings.ReplaceAll(sp.GitCfg, "{{URL}}", srv.URL)
+	if sp.Rewrite != nil {
+		rc, rf := sp.Rewrite.resolve(srv.URL, srv.MirrorURL)
+		gitcfg += rc
+		facts.Rewrite = rf
+	}
 	in := t.instantiate(srv.lfsURL(), gitcfg)
 	defer in.w.Close()
 	if sp.NeedCreds {
@@ -397,6 +404,28 @@ func runSpec(sp *execSpec) vx.Result {
 	}
 	sort.Strings(ks)
 	r.Outcome = sp.Part + " exits=" + strings.Join(exits, "") + " reqs=" + strings.Join(ks, ",")
+	if srv.MirrorURL != "" {
+		// where the requests went: API / action requests that reached the second listener (the <base> of the rewriting rules)
+		mh := strings.TrimPrefix(srv.MirrorURL, "http://")
+		var apiM, actM, actRewritten int
+		for _, q := range reqs {
+			switch {
+			case q.Host == mh && q.Kind != "other":
+				apiM++
+			case q.Host == mh:
+				actM++
+			case strings.HasPrefix(q.Path, "/mi/") || strings.HasPrefix(q.Path, "/mp/"):
+				actRewritten++
+			}
+		}
+		cap3 := func(n int) int {
+			if n > 3 {
+				return 3
+			}
+			return n
+		}
+		r.Outcome += fmt.Sprintf(" api@base*%d actions@base*%d actions@rewritten-path*%d", cap3(apiM), cap3(actM), cap3(actRewritten))
+	}
 	cc.mu.Lock()
 	for k, n := range cc.m {
 		r.Counters["clause:"+k] += n
@@ -447,7 +476,7 @@ func requestShape(q *req) string {
 		sort.Strings(ks)
 		parts = append(parts, "q="+strings.Join(ks, "+"))
 	}
-	for _, h := range []string{"Authorization", "Range", "X-C18-Token"} {
+	for _, h := range []string{"Authorization", "Range", "X-C18-Token", "Tus-Resumable", "Upload-Offset", agentMarker} {
 		if q.hget(h) != "" {
 			parts = append(parts, "h:"+h)
 		}
@@ -1013,6 +1042,9 @@ func buildParts(c *vx.Check) []part {
 	// ---- rare request paths x extreme object sizes (c18_sizes_verif_test.go)
 	parts = append(parts, sizesPart(c))
 
+	// ---- transfer adapter chosen per batch response; client URL rewriting x action kinds (c18_seq_verif_test.go)
+	parts = append(parts, seqPart(c), rewritePart(c))
+
 	// ---- response corruption
 	bases := corruptBases(th)
 	type cb struct {
@@ -1079,13 +1111,17 @@ func TestVerifC18(t *testing.T) {
 	c.Rule = "designed scenario set enumerated as full cartesian products per part (names: op x branch name x file set; modes: op x server behaviour x file set x branch; " +
 		"locks: command sequence x path set x page size x cursor style x id style x branch; hash-algo: op x algorithm x transfer; " +
 		"sizes: request path (every command form that constructs a transfer queue / lock client: pull, fetch [refs / --all / --recent / --refetch / --dry-run --json / --prune], checkout and clone through filter-process and through the one-shot smudge filter, git lfs smudge [+ lfs.remote.searchall], cat-file --filters, merge-driver, migrate export, prune --verify-remote [--verify-unreachable / --dry-run / --when-unverified=continue / configured], lfs clone, push [refs / --all / --stdin / --object-id / --dry-run / lfs.allowincompletepush], pre-push by hand, git push, hooks) " +
-		"x size class of the hand-written pointers committed in the history (0 with a non-empty oid, 1, 2^31, 2^53+1, 2^63-1, all five; thorough: seven further boundary values) x server variant x client transfer configuration) " +
+		"x size class of the hand-written pointers committed in the history (0 with a non-empty oid, 1, 2^31, 2^53+1, 2^63-1, all five; thorough: seven further boundary values) x server variant x client transfer configuration; " +
+		"transfer-seq: every sequence of transfers named by the successive batch responses of ONE transfer queue (member omitted / basic / tus / a custom transfer agent program; length 2, thorough 3) x how the queue comes to send several batch requests (batch size 1; re-batch after a retriable 403 from the storage endpoint on the first request / on the data request) x op, hrefs unique per response; " +
+		"rewrite: alias class of a url.<base>.insteadOf rule (prefix of the storage hrefs / of the verify href / of the API URL / of everything on the host) x rule kind (insteadOf, pushInsteadOf, both with different bases) x lfs.transfer.enablehrefrewrite (unset, false, true) x rewrite target x transfer x op) " +
 		"plus, for each canonical valid batch / lock response, " +
 		"every single-field corruption of its JSON tree (every node x {remove, null, each wrong type, empty, negative / beyond-int32 / beyond-int64 / fractional number} + targeted batch corruptions). " +
 		"Each execution runs the real git-lfs binary against lib/fakelfs; EVERY recorded request is validated (evaluations = requests validated). " +
 		"distinct_nontrivial = distinct cases in which git-lfs emitted at least one request + distinct request shapes (kind, method, JSON member structure, query keys, marker headers) observed + distinct corruption classes applied"
 	c.Assumptions = []string{
-		"HTTP only (no SSH / pure-SSH transfer, no custom transfer agent process, no tus adapter in use: they are advertised but the server always selects basic)",
+		"HTTP only (no SSH / pure-SSH transfer); the tus adapter and a custom transfer agent are in use only in parts transfer-seq and rewrite (elsewhere they are at most advertised and the server selects basic)",
+		"part transfer-seq: the custom transfer agent is a scripted program (this test binary) that uses exactly the action git-lfs hands it and marks its requests with a header; the tus requirements checked are those of the tus.io core protocol 1.0.0 (Tus-Resumable on every request, PATCH with Upload-Offset = the offset the server reported and Content-Type application/offset+octet-stream), which docs/api/README.md names as the upload-only tus adapter",
+		"part rewrite: where the LFS API itself is addressed (lfs.url resolved through url.*.insteadOf) is not judged, only recognised; with lfs.transfer.enablehrefrewrite = true both the offered href and its documented rewriting are accepted for upload / download / verify actions (the documentation does not say whether the verify callback is rewritten)",
 		"the fake server is on loopback http://127.0.0.1; TLS, proxies, redirects and credential routing are C10's subject",
 		"ref names are the current branch without upstream configuration, so the documented server ref is refs/heads/<branch>",
 		"file names are valid UTF-8 (JSON cannot carry other byte strings)",
@@ -1130,7 +1166,7 @@ func TestVerifC18(t *testing.T) {
 		os.Exit(2)
 	}
 
-	deadline := c.DeadlineAfter(185*time.Second, 22*time.Minute)
+	deadline := c.DeadlineAfter(200*time.Second, 22*time.Minute)
 	var vparts []vx.Part
 	clause := map[string]int64{}
 	reqKinds := map[string]int64{}
